@@ -44,7 +44,7 @@ CLAIMS.update({
    text="Every segment of seeded build/merge worlds is written by the current code and by the frozen reference copy (/verif/refice); each image is loaded memory- and file-backed by both readers and all observations must agree (and agree with the model). 48 committed reference-written files with recorded observations must be reproduced by the current reader alone.",
    note="Trusted: /verif/refice (pinned ice + the format-neutral fix commits listed in refice/ORIGIN); the golden corpus was generated by it and cross-checked against the model.", ref="DESIGN.md §5 C10"),
  "C12": dict(tech="deterministic simulation with exhaustive per-workload fault enumeration: failing writer at every byte offset, fail-once samples, close channel closed at every seam event",
-   text="Per generated workload (Segment.WriteTo of a built/memory/file view, Merger.WriteTo with buffer sizes 0/1/2/7/64/4096, unbuffered hook merge) the fault-free run fixes the reference bytes; then the simulated writer fails persistently after k bytes for every k in [0,L), fails once at 16 sampled offsets, and for merges the close channel is closed before the call, at every write and every input storage read (inputs are reloaded cold for every execution), and after the last event. Every third failing offset fails with an error that calls itself Temporary(); the simulated file offers Sync(). Error-or-complete-file oracle; the fault-free output is validated against the model; after a failed attempt a healthy writer must receive the identical file. The lifecycle scenario adds failed persists and cancelled/failed background merges inside an index life cycle.",
+   text="Per generated workload (Segment.WriteTo of a built/memory/file view, Merger.WriteTo with buffer sizes 0/1/2/7/64/4096, unbuffered hook merge) the fault-free run fixes the reference bytes; then the simulated writer fails persistently after k bytes for every k in [0,L), fails once at 16 sampled offsets, and for merges the close channel is closed before the call, at every write and every input storage read (inputs are reloaded cold for every execution), and after the last event. Every third failing offset fails with an error that calls itself Temporary(); the simulated file offers Sync(). Error-or-complete-file oracle; the fault-free output is validated against the model; after a failed attempt a healthy writer must receive the identical file. The lifecycle scenario adds failed persists and cancelled/failed background merges inside an index life cycle; merge-read-fault adds failing input storage during merges; the arguments handed to Merge (drops slice, bitmaps, segments slice) must come back untouched from every failed or cancelled call.",
    note="exhaustive refers to each workload's fault space; workloads are sampled. Writers never return n<len with nil error.", ref="DESIGN.md §5 C12"),
  "C13": dict(tech="deterministic simulation: seeded lookup histories reusing earlier postings lists/iterators/dictionaries/readers across segments and encodings, compared with the reference model",
    text="Histories of up to 30 lookups over 1-5 segments in which each postings lookup may pass any postings list / iterator created earlier (from any segment, 1-hit or general, exhausted or half-consumed) as prealloc, Dictionary objects and open DictionaryIterators are continued across other lookups, one doc-value reader per segment is reused, interleaved with stored-field visits (pooled contexts), earlier postings lists are walked again later, term keys live in one scratch buffer, lookups are sticky (three-step patterns), two dictionary iterators stay open on one Dictionary, twin segments share layouts; each lookup's result must equal the model's. The docvalues scenario (one reader, long visit histories) runs under this check as well.",
@@ -53,7 +53,7 @@ CLAIMS.update({
    text="The target batch is built, then again after each of 0-5 other builds (other shapes, failing builds with an unknown chunk mode), then concurrently with 1-3 other New calls interleaved by the scheduler at every Document.EachField callback; all builds of one (batch, norm, chunk mode) must be byte-identical. The same cases run under -race with the invisible baton. Pool reuse is measured through the verif probe.",
    note="sync.Pool contents are not under the simulator's control; reuse is measured (pool-reuse-observed), not forced.", ref="DESIGN.md §5 C14"),
  "C15": dict(tech="deterministic simulation: seeded read/persist/merge histories with before/after snapshots of observations, persisted bytes, backing memory and caller bitmaps (set and serialisation)",
-   text="Snapshot of every segment (full observation, persisted bytes, backing slice) and of every caller bitmap (clone and serialised bytes); histories of up to 25 operations (full observations with reuse, postings walks with exclusion bitmaps, WriteTo, merges whose results join the pool, DocsMatchingTerms, stored and doc-value visits, CollectionStats().Merge into a returned value, doc-value readers requested with another segment's Fields() slice); afterwards everything (including CRC/offset/Size accessors) must be identical. Lifecycle scenario included.",
+   text="Snapshot of every segment (full observation, persisted bytes, backing slice) and of every caller bitmap (clone and serialised bytes); histories of up to 25 operations (full observations with reuse, postings walks with exclusion bitmaps, WriteTo, merges whose results join the pool, DocsMatchingTerms, stored and doc-value visits, CollectionStats().Merge into a returned value, doc-value readers requested with another segment's Fields() slice); afterwards everything (including CRC/offset/Size accessors) must be identical. Lifecycle scenario included; 40 persist-fault and 120 read-fault workloads run under this check too (merge arguments untouched by failed merges; after a transient storage fault fresh objects read the segment exactly as before).",
    note="Trusted: roaring's Equals/ToBytes.", ref="DESIGN.md §5 C15"),
  "C17": dict(tech="deterministic simulation: metamorphic comparison of flat merges with seeded groupings/bracketings and translated deletions; identity merges",
    text="1-5 leaves (built or merged) with deletion bitmaps are merged flat and in random order-preserving groupings (two or three levels), inner merges either applying their deletions or leaving them to be translated through DocumentNumbers() one level up; all results must be observationally identical including statistics; Merge([X],[nil]) must equal X.",
@@ -62,7 +62,7 @@ CLAIMS.update({
    text="Lists of 0-12 (field, term) pairs with repeats, absent terms, unknown fields (incl. the empty name), field switches inside the list and 1-hit terms; absent terms take texts that exist in other fields, lists of 63-300 entries, empty terms passed as nil slices; the returned bitmap must equal the model's union, never error or panic. Lifecycle scenario (deletes resolved per segment) included.",
    note="Trusted: reference model.", ref="DESIGN.md §5 C18"),
  "C19": dict(tech="deterministic simulation with exhaustive per-workload fault enumeration: storage fails from every read index on (3 error kinds) and transiently, with lock invariant and hang detector",
-   text="Per generated workload (file-backed segment, program of 3-12 read calls of all kinds) the fault-free run counts R storage reads; then for every j in [0,R] the simulated disk fails from read j on with os.ErrClosed / EIO / short read, and for windows of 1 and 3 reads; oracle: no panic, a call that saw a storage error reports an error or an empty result, after every call no segment mutex is held and all later calls return (goroutine-state hang detector as backstop), bounded reads per call after a transient fault. after an error the same iterator/reader is used again; DocsMatchingTerms lists span several fields. 5% of workloads additionally use a real temp file closed before each call in turn. A second scenario samples 30-80 fault positions on multi-chunk segments of 1 000-4 000 documents.",
+   text="Per generated workload (file-backed segment, program of 3-12 read calls of all kinds) the fault-free run counts R storage reads; then for every j in [0,R] the simulated disk fails from read j on with os.ErrClosed / EIO / short read, and for windows of 1 and 3 reads; oracle: no panic, a call that saw a storage error reports an error or an empty result, after every call no segment mutex is held and all later calls return (goroutine-state hang detector as backstop), bounded reads per call after a transient fault. after an error the same iterator/reader is used again; DocsMatchingTerms lists span several fields. 5% of workloads additionally use a real temp file closed before each call in turn. A second scenario samples 30-80 fault positions on multi-chunk segments of 1 000-4 000 documents; a third lets the storage of a merge's file-backed inputs fail once or for good at sampled read positions (error, or the identical file). Every read of Load itself is enumerated too. After a transient fault every operation is repeated with fresh objects and must read what the segment holds. Stall watchdog: a shard blocked inside ice (lock, semaphore, channel) for 420 s is reported as a hang.",
    note="exhaustive refers to each workload's fault space; workloads are sampled. Correctness of data returned after a fault is not asserted.", ref="DESIGN.md §5 C19"),
 })
 
